@@ -22,8 +22,8 @@ for r in res:
     if x["status"] == "trusted":
         continue            # an assumed contract (the same function may be proved in another sidecar)
     if x["status"] != "ok" or notp:
-        print("NOT RECORDED (not fully proved):", x["key"], x["status"], x.get("reason"), notp[:5]); bad += 1
-        exp.pop(x["key"], None)
+        # (the all-modules run can starve the slowest queries: an earlier complete record of the function is kept, not dropped)
+        print("NOT RECORDED (not fully proved in this run; previous record kept):", x["key"], x["status"], x.get("reason"), notp[:5]); bad += 1
         continue
     exp[x["key"]] = names
 json.dump(exp, open(path, "w"), indent=1, sort_keys=True)
